@@ -825,3 +825,46 @@ def index_site_guards(P, fn, bi):
         if dl & sl:
             n += 1
     return n
+
+
+def opt_wrappers(chk, P, prefixes, floor, rid="SIB.opt_wrapper"):
+    """Every function `p::name` that has a fallible sibling `p::name_opt` / `p::try_name` and calls fallible siblings of the same
+    type at all must call exactly its own one, with its own parameters in order (a wrapper that unwraps the wrong sibling still
+    type-checks when the signatures agree)."""
+    from sym import Sym
+    chk.rule(rid, "a wrapper `name` with a fallible sibling `name_opt` / `try_name` calls that sibling (and no other fallible sibling of the type) "
+                  "with its own parameters in order", floor=floor)
+    names = set(n for n, f in P.fns.items() if "mir" in f)
+    for n in sorted(names):
+        if "::" not in n or not n.startswith(tuple(prefixes)):
+            continue
+        pre, last = n.rsplit("::", 1)
+        sib = [s for s in (pre + "::" + last + "_opt", pre + "::try_" + last) if s in names]
+        if not sib:
+            continue
+        cal = {}
+        for _i, t, cs in P.calls(n):
+            for c in cs:
+                l = c.rsplit("::", 1)[-1]
+                if c in names and c.rsplit("::", 1)[0] == pre and (l.endswith("_opt") or l.startswith("try_")):
+                    cal.setdefault(c, []).append(t)
+        if not cal:
+            continue  # goes through another type's API (NaiveDateTime::from_timestamp -> DateTime): not a sibling wrapper
+        ok = set(cal) == {sib[0]} and len(cal[sib[0]]) == 1
+        detail = "%s calls %s, expected only %s" % (last, sorted(c.rsplit("::", 1)[-1] for c in cal), sib[0].rsplit("::", 1)[-1])
+        if ok:
+            nargs = len(P.fns[sib[0]]["mir"].get("args", [])) if isinstance(P.fns[sib[0]]["mir"].get("args"), list) else None
+            calls = set()
+            try:
+                for p in Sym(P, n).paths():
+                    for x in [p.ret] + [c[1] for c in p.conds]:
+                        for c in find_calls(x, lambda c: c[1] == sib[0]):
+                            calls.add(c[2])
+            except Exception:  # noqa: the path extraction is an extra; the callee identity above is the rule
+                calls = set()
+            for a in calls:
+                want = tuple(("arg", i + 1) for i in range(len(a)))
+                if tuple(unref(x) for x in a) != want and tuple(a) != want:
+                    ok = False
+                    detail = "%s passes %s to %s, expected its own parameters in order" % (last, [str(x)[:40] for x in a], sib[0].rsplit("::", 1)[-1])
+        chk.expect(ok, last if n.count("::") < 1 else pre.rsplit("::", 1)[-1] + "::" + last, detail, loc=P.loc(n))
